@@ -438,10 +438,17 @@ class BaseBackend(CodeGen):
                      dt: Optional[float] = None, dt_adapt: bool = True, **kwargs):
         idx = self._process_idx(state_idx)
         d = self._process_delay(delay)
-        if dt is not None and not dt_adapt:
-            self.add_code_line(f"{lhs} = hist(t*{dt:.10e}-{d})[{idx}]")
+        t_str = f"t*{dt:.10e}" if dt is not None and not dt_adapt else "t"
+        n = int(np.prod(delay.shape)) if type(delay) is ComputeVar and delay.shape else 1
+        if n > 1 and type(state_idx) is tuple and state_idx[1] - state_idx[0] == n:
+            # one delay per unit of a vectorized variable (a delay parameter that differs between the merged nodes):
+            # every unit reads the history at its own lag
+            i0 = self._start_idx
+            self.add_code_line(f"{lhs} = hist({t_str}-{delay}[{i0}])[{idx}] + 0.0")
+            for i in range(1, n):
+                self.add_code_line(f"{lhs}[{i + i0}] = hist({t_str}-{delay}[{i + i0}])[{self._process_idx(state_idx[0] + i)}]")
         else:
-            self.add_code_line(f"{lhs} = hist(t-{d})[{idx}]")
+            self.add_code_line(f"{lhs} = hist({t_str}-{d})[{idx}]")
 
     def add_import(self, line: str):
         if line not in self._imports:
